@@ -82,6 +82,7 @@ def isect_record(inter, case):
 
 
 INTYPES = ["pylist", "int64", "int32", "float32", "tuple", "mixed"]
+MAGNITUDES = [1e3, 1e-3, 1e-5, 1e-7, 1e-9]      # the same curves in a much smaller / larger unit
 
 
 def random_polylines(rng, count):
@@ -105,7 +106,9 @@ def random_polylines(rng, count):
             q = np.array([[xv, 0], [xv, 100]]) if t % 2 else np.array([[0, xv], [100, xv]])
         case = dict(kind="isect", p=[[int(a), int(b)] for a, b in p], q=[[int(a), int(b)] for a, b in q],
                     src="random")
-        if t % 2:
+        if t % 4 == 3:          # pure change of unit: the crossings are the scaled crossings
+            case.update(unit=MAGNITUDES[(t // 4) % len(MAGNITUDES)], offx=0.0, offy=0.0)
+        elif t % 2:
             case.update(unit=float(rng.choice([0.37, 0.1, 2.5])), offx=float(rng.uniform(-50, 50)),
                         offy=float(rng.uniform(-50, 50)))
         elif (t // 2) % 7:        # integer-valued vertices handed over as ints / int arrays / float32 / tuples
@@ -371,6 +374,9 @@ def dcf_cases(ctx, vc, rng, lattice_polys=()):
         unit, ox, oy = [(0.5, 0.0, 0.0), (0.1, 0.3, 1.7), (0.7, -2.0, -1.0), (1.0 / 3.0, 5.0, 0.25)][k % 4]
         P = np.asarray(poly, dtype=float)
         polys.append(("lattice", np.c_[P[:, 0] * unit + ox, P[:, 1] * unit + oy]))
+    # every 8th polygon also in a much smaller / larger unit (steps are drawn for the scaled polygon)
+    polys += [(f"{src}*{MAGNITUDES[k % len(MAGNITUDES)]:g}", co * MAGNITUDES[k % len(MAGNITUDES)])
+              for k, (src, co) in enumerate(polys[::8])]
     for idx, (src, co) in enumerate(polys):
         for swap in (False, True):
             for var in steps_variants(rng, co, swap):
@@ -555,7 +561,8 @@ def run(ctx):
                 "8th resp. 2nd polygon (quick)) through "
                 "calculate_design_conditions, plus scaled / shifted copies; every 6th (quick) / 5th (thorough) lattice pair "
                 "and 3/7 of the unscaled random pairs also with the vertex sequences typed as Python int lists, int64 / "
-                "int32 / float32 arrays, tuples, one curve int and one float; seeded random: integer polylines on "
+                "int32 / float32 arrays, tuples, one curve int and one float; every 9th / 7th lattice pair, a quarter of "
+                "the random pairs and every 8th float polygon also in units of 1e3, 1e-3, 1e-5, 1e-7, 1e-9; seeded random: integer polylines on "
                 "0..100, star-shaped non-convex float polygons and IFORM / ISORM / direct-sampling contours of "
                 "random 2-D models x steps None / int / lists inside, outside, at vertex abscissae, integer-typed "
                 "(int list, range, int64 / int32 array, mixed, tuple), within 1-3 ulp of vertex abscissae, the polygon's "
@@ -594,6 +601,9 @@ def run(ctx):
     # the same lattice pairs with the vertex sequences typed as Python ints, int64 / int32 / float32 arrays,
     # tuples, or one curve int and one float (the crossings are in general not integers)
     sc += [dict(c, intype=INTYPES[k % len(INTYPES)]) for k, c in enumerate(cases[3::ctx.pick(6, 5)])]
+    # the same lattice pairs in units of 1e3 ... 1e-9 (scale invariance of the crossings)
+    sc += [dict(c, unit=MAGNITUDES[k % len(MAGNITUDES)], offx=0.0, offy=0.0)
+           for k, c in enumerate(cases[5::ctx.pick(9, 7)])]
     rp = list(random_polylines(rng, ctx.pick(1500, 20000)))
     recs = judge(ctx, vc, cases + sc + rp, "lattice polyline pairs + random integer polylines", selftest=True)
     ctx.sample({"emitted": gen[len(gen) // 3], "record": recs[len(gen) // 3]})
